@@ -22,11 +22,19 @@ NA = {
     "C17": "Precedence of three configuration sources is a pure function of the three assignments (DESIGN.md §7).",
 }
 
-PENDING = {
-    "C04": "check under construction in this round (gc-sim, DESIGN.md §4); not claimed until it runs",
-}
+PENDING = {}
 
 CHECKS = {
+    "C04": {
+        "engine": "gc-sim",
+        "technique": "deterministic simulation of garbage-collection / finalizer schedules (simulated FinalizationRegistry, model wasm, V8 reachability) over tool-generated JS bindings for seeded bridges, with memory.grow and export-throw faults",
+        "level_claimed": {
+            "category": "exploration",
+            "text": "Scoped claim: for the JavaScript backend (legacy and spec ABI) the lifetime edges the real tool emits keep alive everything a returned value may borrow from, under every sampled GC schedule. Bridges are generated from VERIF_SEED inside C04's grammar, the real diplomat-tool generates the .mjs, a model wasm plays the most-borrowing Rust body each signature admits (computed independently of Diplomat and validated on every run against feature_tests' annotated ground truth), FinalizationRegistry is replaced by a simulated one so that the trace alone decides where GC points fall and which dead registration is finalized when; V8 decides reachability. Safety oracles at every use of a held wrapper (no lender destroyed/freed), at every export call (no dangling argument) and at every destroy/free (exactly once; a by-reference return that lives inside a lender is never destroyed). Not decided: the upper bound of 'exactly' (over-retention is allowed by the property for backends) and the Dart/Kotlin/nanobind emitters (cannot be executed here).",
+            "design_ref": "DESIGN.md §4",
+        },
+        "level_note": "Trusted: V8's gc() precision (canary-monitored; imprecision can only hide a premature free), the independent outlives model, the bridge generator staying inside the accepted grammar (tool-rejected bridges are skipped and counted). The wasm side is a model because no wasm32 target is installed.",
+    },
     "C14": {
         "engine": "proc-sim",
         "technique": "deterministic simulation of the diplomat-tool process environment (entropy/clock/pid/heap/cwd/env behind an LD_PRELOAD shim, ASLR off) with seeded edit histories; byte comparison of output trees",
@@ -60,6 +68,7 @@ CHECKS = {
 }
 
 ENGINES = [
+    {"name": "gc-sim", "path": "sim/js (gen.mjs, gcsim.mjs, validate_model.mjs) + lib/c04.py", "serves_properties": ["C04"], "kind_free_text": "GC-schedule simulator for generated JS bindings: bridge generator, independent outlives model, simulated FinalizationRegistry, model wasm, ddmin"},
     {"name": "proc-sim", "path": "lib/c14.py + sim/proc/shim.c + sim/rs/permute", "serves_properties": ["C14"], "kind_free_text": "process-environment simulator for diplomat-tool: preload shim, ASLR-off launcher, syn-based edit-history rewriter, tree comparator with minimiser"},
     {"name": "own-sim", "path": "sim/rs/own-sim", "serves_properties": ["C03", "C12"], "kind_free_text": "trace-driven ownership simulator: L1 runtime types, L2 macro-generated extern C API of sim/rs/vbridge (Rust, native + Miri)"},
     {"name": "write-sim", "path": "sim/rs/write-sim", "serves_properties": ["C12"], "kind_free_text": "trace-driven simulator of the DiplomatWrite buffer owner (Rust, native + Miri)"},
